@@ -52,6 +52,8 @@ def configs(tier):
 
 def judge(case, part):
     """case: {"config": ..., "table": [[cell, ...], ...]} -> canonical snapshot of the reader after the run."""
+    if "malformed_at" in case:
+        return judge_malformed_line(case, part)
     config = case["config"]
     decls = readermachine.decls_for(config)
     fmt = decls[0]["fmt"]
@@ -95,6 +97,37 @@ def judge(case, part):
     return (observation["snapshot"], (model_run.row_number, model_run.accepted, model_run.rejected, model_run.check_state()))
 
 
+def judge_malformed_line(case, part):
+    """Fixed data with one line that is no row (surplus characters, another line end than the declared one): the rows before it are judged as ever, the
+    line itself is reported as a data format error at its own row number and never handed out as a row."""
+    config = case["config"]
+    decls = readermachine.decls_for(config)
+    table, at, fault = case["table"], case["malformed_at"], case["fault"]
+    tag = "%s|header=%d|malformed-line:%s|%%s" % (config["preset"], config.get("header", 0), fault)
+    cid = readermachine.make_cid(config, decls)
+    lines = ["".join(cell.ljust(decl["width"]) for cell, decl in zip(row, decls)) for row in table]
+    text = "".join(line + ("x\n" if index == at and fault == "surplus-character" else ("\r" if index == at else "\n")) for index, line in enumerate(lines))
+    raw = rowmodel.stored_rows("fixed", decls, table[:at])
+    prediction = rowmodel.predict(decls, config.get("checks", ()), config.get("header", 0), None, raw)
+    observation = readermachine.run_reader(cid, harness.NamedStringIO(text, "data.txt"), "yield", close=False)
+    part.evaluations += 1
+    part.nontrivial += 1
+    part.transitions += len(table)
+    part.validated += 1
+    raised = observation["raised"]
+    if raised is None or raised["type"] != "DataFormatError":
+        part.fail(tag % "not-reported-as-data-format-error", case, "DataFormatError at row %d" % (at + 1), raised)
+        return
+    if raised.get("line") != at:
+        part.fail(tag % "row-number", case, at + 1, raised)
+    expected = [event[0] for event in prediction["events"]]
+    observed = [("row" if event[0] == "row" else "rej") for event in observation["events"]]
+    if expected != observed:
+        part.fail(tag % "events-before-the-malformed-line", case, expected, observed)
+    elif [e[1] for e in prediction["events"] if e[0] == "row"] != [e[1] for e in observation["events"] if e[0] == "row"]:
+        part.fail(tag % "rows-before-the-malformed-line", case, [e[1] for e in prediction["events"] if e[0] == "row"], [e[1] for e in observation["events"] if e[0] == "row"])
+
+
 def explore(item):
     config, depth, merge = item
     part = Part()
@@ -102,6 +135,13 @@ def explore(item):
     shapes = readermachine.row_shapes(config, decls)
     rows = {name: row for name, row in shapes}
     names = [name for name, _ in shapes]
+    if decls[0]["fmt"] == "fixed" and merge and config.get("line_delimiter", "lf") == "lf" and "line_end" not in config:
+        usable = names[:3]
+        for count in (1, 2, 3):
+            for history in itertools.product(usable, repeat=count):
+                for at in range(count):
+                    for fault in ("surplus-character", "cr-instead-of-lf"):
+                        judge_malformed_line({"config": config, "table": [rows[name] for name in history], "malformed_at": at, "fault": fault}, part)
 
     def run(history):
         return judge({"config": config, "table": [rows[name] for name in history]}, part)
